@@ -488,6 +488,10 @@ def main(x: int) -> int:\n    return x\n    if nope:\n        pass
 def main(x: int) -> int:\n    return x\n    return x + "a"
 def main(x: int) -> None:\n    return\n    nope(x)
 def main(q: qubit @ owned) -> None:\n    discard(q)\n    return\n    h(nope)
+def main(xs: array[int, 3]) -> int:\n    for xs in xs:\n        pass\n    return 1
+def main(xs: array[int, 3], c: bool) -> int:\n    if c:\n        xs = 1\n    return 1
+def main(x: int) -> None:\n    panic("m", ident, x)
+def main(x: int) -> None:\n    exit("m", 1, ident)
 '''
 
 PROBES = [PRE + "@guppy\n" + line.replace("\\n", "\n").replace("\\t", "\t") + "\n" for line in _P.strip().split("\n")]
